@@ -6,7 +6,7 @@
    that the behaviour can be replayed into the real object.                        *)
 EXTENDS HistOps, TLC, Json
 
-CONSTANTS NSet, MSet, TSet, Weights, Depth, Emit
+CONSTANTS NSet, MSet, TSet, Weights, Depth, Emit, FewVals    \* FewVals: small value alphabet (deeper exhaustive histories)
 VARIABLES c, c0, bins, acc, normed, h      \* c0: the configuration the object was created with
 vars == <<c, c0, bins, acc, normed, h>>
 
@@ -16,6 +16,7 @@ ReConfigs == {cc \in Configs : cc.m = CHOOSE x \in MSet : TRUE}
 
 \* interesting values for a configuration: edges, centres, far images, far outside
 Vals(cc) == LET s == Step(cc)  L == cc.n * s  mx == MaxOf(cc) IN
+  IF FewVals THEN {cc.m, mx, cc.m - L - s \div 2, mx + s} ELSE
   { cc.m, cc.m - s \div 2, cc.m - s \div 2 - 1, cc.m + s \div 2, cc.m + s \div 2 - 1,
     mx, mx + s \div 2, mx + s \div 2 - 1, mx - s \div 2,
     cc.m - L, cc.m - 2 * L, cc.m - 3 * L - 1, mx + L, mx + 2 * L + 1,
